@@ -99,7 +99,16 @@ Counts(mc) == {c \in Coin : Exists(c) /\ spentBy[c] = 0 /\ leased[c] = 0
                             /\ (IF st[c] = 0 THEN mc = 0 ELSE Confs(c) >= mc)
                             /\ (Attr(c).cb => Confs(c) >= Mat)}
 
+\* per account (any key scope): what CalculateAccountBalances reports - everything unspent and unleased,
+\* the immature coinbase part of it, and the part confirmed mc times and not immature
+AcctCoins(a)     == {c \in Coin : Exists(c) /\ spentBy[c] = 0 /\ leased[c] = 0 /\ Attr(c).acct = a}
+Immature(c)      == Attr(c).cb /\ Confs(c) < Mat
+AcctBal(a) == [ total |-> AcctCoins(a),
+                immature |-> {c \in AcctCoins(a) : Immature(c)},
+                spendable |-> [mc \in 0..(Mat+1) |-> {c \in AcctCoins(a) : ~Immature(c) /\ Confs(c) >= mc}] ]
+
 Obs == [ tip |-> tip,
+         acctBal |-> [a \in Accts |-> AcctBal(a)],
          st |-> st, spentBy |-> spentBy,
          spendable |-> Spendable,
          bal |-> [mc \in 0..(Mat+1) |-> Counts(mc)],
